@@ -251,7 +251,57 @@ pub fn generate(rng: &mut Rng, _tier: Tier) -> Value {
             let unbounded = rng.chance(1, 5);
             let d = if unbounded { 0 } else { rng.range(1, if dim == "stack" { 120 } else { 48 }) };
             let stop = if unbounded { "false".to_string() } else { format!("d>={d}") };
-            let def = match rng.below(4) {
+            let def = match rng.below(16) {
+                // recursion through other call paths: each has its own entry point into the engine's
+                // call machinery and must be covered by the recursion and stack limits as well
+                4 => {
+                    tags.push("rec-derived-ctor-returns-object".into());
+                    format!("class RB {{}} class RA extends RB {{ constructor(d){{ tick(); if ({stop}) return {{}}; return new RA(d+1); }} }} function bomb(){{ new RA(1); return 1; }}")
+                }
+                5 => {
+                    tags.push("rec-derived-ctor-super-argument".into());
+                    format!("class RB {{ constructor(x){{ this.x=x; }} }} class RA extends RB {{ constructor(d){{ tick(); super(({stop}) ? 0 : new RA(d+1).x+1); }} }} function bomb(){{ return new RA(1).x; }}")
+                }
+                6 => {
+                    tags.push("rec-base-ctor".into());
+                    format!("function RC(d){{ tick(); this.v = ({stop}) ? 0 : new RC(d+1).v+1; }} function bomb(){{ return new RC(1).v; }}")
+                }
+                7 => {
+                    tags.push("rec-bound".into());
+                    format!("var rbb; function rb(d){{ tick(); if ({stop}) return 0; return rbb(d+1); }} rbb = rb.bind(null); function bomb(){{ return rbb(1); }}")
+                }
+                8 => {
+                    tags.push("rec-call-apply".into());
+                    format!("function rc(d){{ tick(); if ({stop}) return 0; return d%2 ? rc.call(null, d+1) : rc.apply(null, [d+1]); }} function bomb(){{ return rc(1); }}")
+                }
+                9 => {
+                    tags.push("rec-reflect".into());
+                    format!("function rr(d){{ tick(); if ({stop}) return 0; return d%2 ? Reflect.apply(rr, null, [d+1]) : Reflect.construct(function(){{ this.v = rr(d+1); }}, []).v; }} function bomb(){{ return rr(1); }}")
+                }
+                10 => {
+                    tags.push("rec-getter".into());
+                    format!("var rgd=0; var rgo = {{ get g(){{ var d=++rgd; tick(); if ({stop}) return 0; return this.g; }} }}; function bomb(){{ rgd=0; return rgo.g; }}")
+                }
+                11 => {
+                    tags.push("rec-proxy-apply".into());
+                    format!("var rpf = new Proxy(function(){{}}, {{ apply(t, th, args){{ var d=args[0]; tick(); if ({stop}) return 0; return rpf(d+1); }} }}); function bomb(){{ return rpf(1); }}")
+                }
+                12 => {
+                    tags.push("rec-tagged-template".into());
+                    format!("function rt(s, d){{ tick(); if ({stop}) return 0; return rt`${{d+1}}`; }} function bomb(){{ return rt`${{1}}`; }}")
+                }
+                13 => {
+                    tags.push("rec-arrow-async".into());
+                    format!("var rar = async (d) => {{ tick(); if ({stop}) return 0; return rar(d+1); }}; function bomb(){{ rar(1); return 1; }}")
+                }
+                14 => {
+                    tags.push("rec-generator-delegate".into());
+                    format!("function* rgen(d){{ tick(); if (!({stop})) yield* rgen(d+1); }} function bomb(){{ return [...rgen(1)].length; }}")
+                }
+                15 => {
+                    tags.push("rec-class-static-new-target".into());
+                    format!("class RS {{ static make(d){{ tick(); if ({stop}) return 0; return Reflect.construct(RS, [d+1], RS).v; }} constructor(d){{ this.v = RS.make(d); }} }} function bomb(){{ return RS.make(1); }}")
+                }
                 0 => {
                     tags.push("rec-plain".into());
                     format!("function rec(d){{ tick(); if ({stop}) return 0; return 1+rec(d+1); }} function bomb(){{ return rec(1); }}")
@@ -269,7 +319,10 @@ pub fn generate(rng: &mut Rng, _tier: Tier) -> Value {
                     format!("var ro = {{ m(d){{ tick(); if ({stop}) return 0; return this.m(d+1); }} }}; function bomb(){{ return ro.m(1); }}")
                 }
             };
-            (def, d, d, unbounded)
+            // shapes that go through native re-entry or helper frames use up to three units of
+            // recursion depth per level; generator and async shapes run on their own value stacks
+            let plain = tags.iter().any(|t| matches!(t.as_str(), "rec-plain" | "rec-try" | "rec-mutual" | "rec-method"));
+            (def, d, if plain { d } else { d * 3 }, unbounded)
         }
     };
     // limit value relative to the bomb
@@ -290,9 +343,9 @@ pub fn generate(rng: &mut Rng, _tier: Tier) -> Value {
                 (*rng.pick(&[1u64, 2, 3, 5, 16, 64, 200]), "stop")
             } else {
                 match rng.below(10) {
-                    0..=3 => (rng.range(1, size.saturating_sub(2).max(1)), "stop"),
+                    0..=3 => (rng.range(1, size_lo.saturating_sub(2).max(1)), "stop"),
                     4..=6 => (size + 16 + rng.below(20), "pass"),
-                    _ => (rng.range(size.saturating_sub(1).max(1), size + 15), "either"),
+                    _ => (rng.range(size_lo.saturating_sub(1).max(1), size + 15), "either"),
                 }
             }
         }
@@ -301,18 +354,20 @@ pub fn generate(rng: &mut Rng, _tier: Tier) -> Value {
                 (rng.range(10, 400), "stop")
             } else {
                 match rng.below(10) {
-                    0..=3 => (rng.range(4, (2 * size).saturating_sub(10).max(4)), "stop"),
+                    0..=3 => (rng.range(4, (2 * size_lo).saturating_sub(10).max(4)), "stop"),
                     4..=6 => (60 * size + 400 + rng.below(100), "pass"),
-                    _ => (rng.range(2 * size, 60 * size + 400), "either"),
+                    _ => (rng.range(2 * size_lo, 60 * size + 400), "either"),
                 }
             }
         }
     };
+    let own_stack = tags.iter().any(|t| matches!(t.as_str(), "rec-generator-delegate" | "rec-arrow-async"));
     // a "stop" band is only certain when the bomb alone exceeds the limit
     let band = match (dim, band) {
+        ("stack", "stop") if own_stack => "either",
         ("loop", "stop") if !unbounded && size_lo < limit + 3 => "either",
-        ("rec", "stop") if !unbounded && size < limit + 2 => "either",
-        ("stack", "stop") if !unbounded && 2 * size < limit + 10 => "either",
+        ("rec", "stop") if !unbounded && size_lo < limit + 2 => "either",
+        ("stack", "stop") if !unbounded && 2 * size_lo < limit + 10 => "either",
         (_, b) => b,
     };
     // route + wrappers
@@ -556,7 +611,7 @@ pub const PROP: Prop = Prop {
     generate,
     execute,
     shrink,
-    rule: "one run = (3 of 4) one program from the factor product {12 loop forms x 9 placements | 4 recursion shapes} x 59 synchronous re-entry routes (9 of them with a builtin or destructuring holding an open iterator whose return() must not run) x {none | 11 promise-job routes} x 5 wrapper shapes at up to 3 nesting levels x evaluation mode (eval / budgeted eval) with exactly one active limit (loop, recursion or stack) whose value is drawn relative to the bomb size into a must-stop, must-pass or boundary band; executed limited and (if the bomb is bounded) unlimited; or (1 of 4) one or two of 38 feature kernels under a seeded loop / recursion / stack limit, where nothing is predicted and the limited run must equal the unlimited one or end in a limit error of the right kind with a trace that is a prefix of it; non-trivial = the limit fault fired; distinct = distinct (factor tags, band, budget, limit value, bomb steps executed, completion) tuples",
+    rule: "one run = (3 of 4) one program from the factor product {12 loop forms x 9 placements | 16 recursion shapes (plain, try, mutual, method, derived / base constructors, super argument, bound, call/apply, Reflect, getter, Proxy apply, tagged template, async arrow, generator delegation, static + Reflect.construct)} x 59 synchronous re-entry routes (9 of them with a builtin or destructuring holding an open iterator whose return() must not run) x {none | 11 promise-job routes} x 5 wrapper shapes at up to 3 nesting levels x evaluation mode (eval / budgeted eval) with exactly one active limit (loop, recursion or stack) whose value is drawn relative to the bomb size into a must-stop, must-pass or boundary band; executed limited and (if the bomb is bounded) unlimited; or (1 of 4) one or two of 38 feature kernels under a seeded loop / recursion / stack limit, where nothing is predicted and the limited run must equal the unlimited one or end in a limit error of the right kind with a trace that is a prefix of it; non-trivial = the limit fault fired; distinct = distinct (factor tags, band, budget, limit value, bomb steps executed, completion) tuples",
     real: &["lexer/parser/compiler/VM/builtins", "SimpleJobExecutor", "RuntimeLimits"],
     stub: &["SimClock", "SimHooks", "print/tick natives (tick has a hard cap that returns an engine-level error: in-process watchdog)"],
     assumptions: &[
